@@ -1,13 +1,13 @@
 SPECIFICATION SSpec
 CONSTANTS
   Mode = "base"
-  Subs = {"immediate"}
+  Subs = {"multinode"}
   KindSet = {"att", "agg", "proposal", "syncmsg", "contrib", "bcsub", "scsub", "prep"}
   ConcSet = {1}
-  ItemSet = {1, 4}
-  NodeCounts = {1}
-  SimCounts = {1}
+  ItemSet = {5}
+  NodeCounts = {3}
+  SimCounts = {3}
   DefaultConc = 16
-  BaseOutcomes = {"accept", "reject", "treject", "malformed", "slowok", "late", "hang"}
+  BaseOutcomes = {"accept", "reject", "treject", "malformed"}
 INVARIANTS Emit
 CHECK_DEADLOCK FALSE
